@@ -37,6 +37,12 @@ type backendDef struct {
 	// "" = sorted memory; "sqlite" = a real sqlite file (sorted/sqlkv: every access goes through
 	// a one-slot gate, a batch owns the gate and a transaction from BeginBatch to CommitBatch).
 	KV string
+	// Long: the history receives more blobs than encrypt's SmallMetaCountLimit, so that the
+	// background meta compaction runs (and is faulted); only the operations from FromOp on are
+	// fault sites (the earlier ones are plain receives, enumerated by the short history).
+	Long   bool
+	FromOp int
+	ToOp   int // exclusive; 0 = to the end
 	// Slices > 1: the sites are run by that many parallel chains of child processes.
 	Slices int
 	// LargeFile: the history of a composition contains a file big enough to be packed.
@@ -475,6 +481,10 @@ func composition(rng *rand.Rand, depth int) *sto.Spec {
 	}
 }
 
+// longReceives is the number of initial receives of a Long history (encrypt compacts its meta
+// blobs when more than 100 small ones have accumulated).
+const longReceives = 101
+
 // backendDefs is the backend list of a (seed, tier); deterministic.
 func backendDefs(rng *rand.Rand, thorough bool) []*backendDef {
 	defs := []*backendDef{
@@ -510,6 +520,13 @@ func backendDefs(rng *rand.Rand, thorough bool) []*backendDef {
 	for _, k := range sql {
 		defs = append(defs, &backendDef{Name: k + "-sql", Label: k, Kind: k, KV: "sqlite", Slices: 3})
 	}
+	// encrypt with a history long enough to start the background compaction of its meta blobs;
+	// the quick tier faults only the receive that starts it
+	el := &backendDef{Name: "encrypt-long", Label: "encrypt", Kind: "encrypt", Long: true, FromOp: longReceives - 1, ToOp: longReceives}
+	if thorough {
+		el.FromOp, el.ToOp, el.Slices = longReceives-5, 0, 2
+	}
+	defs = append(defs, el)
 	seen := map[string]bool{}
 	nSingles := len(defs)
 	for i := 0; len(defs) < nSingles+n && i < 1000; i++ {
@@ -520,5 +537,44 @@ func backendDefs(rng *rand.Rand, thorough bool) []*backendDef {
 		seen[s.String()] = true
 		defs = append(defs, &backendDef{Name: fmt.Sprintf("comp%d", len(defs)-nSingles), Label: "comp", Kind: "sto", Spec: s, Comp: true})
 	}
+	// compositions around a store whose own index is a real sqlite file (built by sto.Build: the
+	// faults hit the harness-owned leaves; the index keeps sqlite's batch / gate semantics).  The
+	// ones around blobpacked get a file large enough to be packed in their history.
+	nSQL := 2
+	if thorough {
+		nSQL = 6
+	}
+	base := rng.Intn(6)
+	for i := 0; i < nSQL; i++ {
+		s, file := sqlComposition(rng, base+i)
+		defs = append(defs, &backendDef{Name: fmt.Sprintf("compS%d", i), Label: "comp", Kind: "sto", Spec: s, Comp: true, LargeFile: file, Slices: 3})
+	}
 	return defs
+}
+
+// sqlComposition is blobpacked{meta=sqlite} over a seeded small store, inside one seeded layer
+// that hands blobs through unchanged (so that a file still reaches blobpacked whole and is packed).
+func sqlComposition(rng *rand.Rand, i int) (*sto.Spec, bool) {
+	small := mem()
+	switch rng.Intn(4) {
+	case 0:
+		small = dpk(rng)
+	case 1:
+		small = sp("replica", nil, mem(), mem())
+	}
+	core := sp("blobpacked", map[string]any{"meta": "sqlite"}, small, mem())
+	switch i % 6 {
+	case 0:
+		return sp("namespace", nil, core), true
+	case 1:
+		return sp("replica", nil, core, mem()), true
+	case 2:
+		return sp("cond", nil, core, mem()), true
+	case 3:
+		return sp("overlay", nil, mem(), core), true
+	case 4:
+		return sp("proxycache", map[string]any{"cacheBytes": []int{0, 5000, 1 << 20}[rng.Intn(3)]}, core), true
+	default:
+		return core, true
+	}
 }
